@@ -89,6 +89,36 @@ def check_rejection():
                                     value=str(bad), single_cell=single, how='contracts.c14_concrete.check_rejection')
                     except ValueError:
                         pass
+    # finite mapped values of the logarithmic mappings whose conductivity under- / overflows (0.0 / inf) are invalid media too
+    for mp, vals in (('LgConductivity', (-400.0, 309.0)), ('LgResistivity', (400.0, -309.0)), ('LnConductivity', (-800.0, 710.0)), ('LnResistivity', (800.0, -710.0))):
+        m = getattr(emg3d.maps, 'Map' + mp)()
+        for bad in vals:
+            sig = m.backward(np.array([bad]))[0]
+            if np.isfinite(sig) and sig > 0:
+                continue            # (representable after all on this platform)
+            for param in ('property_x', 'property_y', 'property_z'):
+                for single in (False, True):
+                    cases += 1
+                    arr = np.full(grid.shape_cells, 0.3)
+                    if single:
+                        arr[1, 2, 0] = bad
+                    else:
+                        arr[...] = bad
+                    kw = dict(property_x=np.full(grid.shape_cells, 0.3), property_y=np.full(grid.shape_cells, 0.3), property_z=np.full(grid.shape_cells, 0.3), mapping=mp)
+                    kw[param] = arr
+                    try:
+                        emg3d.Model(grid, **kw)
+                        return dict(reproduced=True, cases=cases, clause='mapped value whose conductivity is zero / infinite accepted at construction', mapping=mp,
+                                    parameter=param, value=bad, conductivity=str(sig), single_cell=single, how='contracts.c14_concrete.check_rejection')
+                    except ValueError:
+                        pass
+                    model = emg3d.Model(grid, **dict(kw, **{param: np.full(grid.shape_cells, 0.3)}))
+                    try:
+                        setattr(model, param, arr)
+                        return dict(reproduced=True, cases=cases, clause='mapped value whose conductivity is zero / infinite accepted on assignment', mapping=mp,
+                                    parameter=param, value=bad, conductivity=str(sig), single_cell=single)
+                    except ValueError:
+                        pass
     # assignment to a property that was None
     model = emg3d.Model(grid, 1.0)
     for param in ('property_y', 'property_z', 'mu_r', 'epsilon_r'):
